@@ -222,6 +222,14 @@ static int hash_value(const char *value, EVP_MD_CTX *ctx)
 
 static int hash_item(const struct item *item, EVP_MD_CTX *ctx, void *log_ref)
 {
+    /* delimit the items: different splits of the same bytes over
+       certificate, key, trusted CAs and CRLs must not collide */
+    uint32_t type = item->type;
+    uint64_t len = item->type != item_type_none ? strlen(item->data) : 0;
+
+    EVP_DigestUpdate(ctx, &type, sizeof(type));
+    EVP_DigestUpdate(ctx, &len, sizeof(len));
+
     switch (item->type) {
     case item_type_none:
 	return 0;
